@@ -90,10 +90,20 @@ func rulesC16(c *Ctx) {
 		for _, r := range o.SuccessReturns() {
 			e := o.Of(r.Results[0])
 			isSum := func(x *Ex, role string) bool {
-				if x.K != "acc" || x.S != "+" || len(x.Args) != 2 || !isConst(x.Args[0], "0") || x.Args[1].K != "elem" {
+				if x.K != "acc" || x.S != "+" || len(x.Args) != 2 || !isConst(x.Args[0], "0") {
 					return false
 				}
-				src := x.Args[1].Args[0]
+				step := x.Args[1]
+				var src *Ex
+				switch {
+				case step.K == "elem":
+					src = step.Args[0]
+				case len(step.Args) == 2 && step.Args[1].K == "key" && len(step.Args[1].Args) == 1 && step.Args[1].Args[0].String() == step.Args[0].String():
+					// for k := range m { total += m[k] }: the entry under every key is the value of every entry
+					src = step.Args[0]
+				default:
+					return false
+				}
 				return src.K == "call" && src.Idx == 0 && c.dbCallWithRole(src, role)
 			}
 			ok := e.K == "bin" && e.S == "-" && isSum(e.Args[0], "SELECT total_issued") && isSum(e.Args[1], "SELECT total_redeemed")
